@@ -40,7 +40,8 @@ class GRPCService:
 
     def start(self):
         """Start and connect the GRPC channel."""
-        if str2bool(self._secure):
+        # the value is text from the environment, but can be a bool when set in code
+        if str2bool(str(self._secure)):
             logging.info("Connecting securely")
             logging.debug("Connecting securely to: %s", self._service_url)
             self.channel = grpc.secure_channel(self._service_url, grpc.ssl_channel_credentials())
